@@ -27,7 +27,7 @@ BOUND = {
     "thorough": "text strings of <=3 fragments; grid subsets <=3 (core); other generators as quick with L(5,3)",
 }
 # as-built additions to the bound (kept next to BOUND so that the evidence reports them)
-BOUND = {k: v + "; plus: " + '28 structure-element names and 4 non-ASCII names as question / group / choice-column names holding text; line breaks, tabs and space runs in 19 attribute-valued cells on short and very wide start tags; 13 multi-line texts (references alone on their line, tabs, CR LF) x 9 channels; dict input with numeric / boolean cells (subsets <=2 / <=4 of 10 cells)' for k, v in BOUND.items()}
+BOUND = {k: v + "; plus: " + 'texts with 1-33 references; 28 structure-element names and 4 non-ASCII names as question / group / choice-column names holding text; line breaks, tabs and space runs in 19 attribute-valued cells on short and very wide start tags; 13 multi-line texts (references alone on their line, tabs, CR LF) x 9 channels; dict input with numeric / boolean cells (subsets <=2 / <=4 of 10 cells)' for k, v in BOUND.items()}
 TEXT_CH = ["label", "hint", "guidance_hint", "constraint_message", "glabel", "clabel", "cextra", "default", "form_title"]
 
 
@@ -163,7 +163,16 @@ def gen_longattr(tier):
                     yield {"g": "longattr", "col": col, "val": val, "depth": depth, "nattr": nattr}
 
 
-SPACE = GenSpace({"structnames": gen_structnames, "longattr": gen_longattr, "api": gen_api, "text": gen_text, "grid": gen_grid, "defaults": gen_defaults, "types": gen_types, "layouts": gen_layouts,
+def gen_manyrefs(tier):
+    """one text with many references (a summary note): however many child nodes an element holds, mixed content stays mixed content"""
+    for n in (1, 2, 5, 7, 8, 9, 12, 17, 33):
+        for ch in ("label", "hint", "constraint_message", "clabel", "glabel", "guidance_hint"):
+            for sep in (", ", " ", "\n"):
+                for lang in (False, True):
+                    yield {"g": "manyrefs", "n": n, "ch": ch, "sep": sep, "lang": lang}
+
+
+SPACE = GenSpace({"manyrefs": gen_manyrefs, "structnames": gen_structnames, "longattr": gen_longattr, "api": gen_api, "text": gen_text, "grid": gen_grid, "defaults": gen_defaults, "types": gen_types, "layouts": gen_layouts,
                   "multiline": gen_multiline, "typed": gen_typed}, chunk=400)
 blocks = SPACE.blocks
 expand = SPACE.expand
@@ -185,6 +194,9 @@ def build(case):
         if not case["clean"]:
             wb.setdefault("settings", [{}])[0]["clean_text_values"] = "no"
         return wb, {}
+    if g == "manyrefs":
+        text = case["sep"].join(f"F{i}: ${{t0}}" for i in range(case["n"])) + " end"
+        return C06.build(case["ch"], text, case["lang"]), {}
     if g == "typed":
         return typed_wb(case["mask"]), {}
     if g == "names":
